@@ -35,6 +35,16 @@ inductive SEntry where
   | dir (phantom : Bool) (children : List (Str × SEntry))
   deriving Repr
 
+mutual
+/-- Specification predicate: no phantom directory anywhere in a snapshot. -/
+def noPhantom : SEntry → Bool
+  | .dir ph cs => !ph && noPhantomChildren cs
+  | _ => true
+def noPhantomChildren : List (Str × SEntry) → Bool
+  | [] => true
+  | (_, e) :: rest => noPhantom e && noPhantomChildren rest
+end
+
 /-- `fastpath.Joinable`. -/
 def joinable (base : Str) : Str := if base = [] then [] else base ++ ['/']
 
